@@ -40,12 +40,12 @@ def gen(consts, simulate=None, depth=None, seed=0, timeout=1800, workers=1):
     return r, out
 
 
-GEN_SMALL = {"MaxNodes": "= 3", "MaxChords": "= 1", "Demands": "<- DemandsSmall", "NVals": "= {0, 160}",
+GEN_SMALL = {"ThermalOn": "= FALSE", "MaxNodes": "= 3", "MaxChords": "= 1", "Demands": "<- DemandsSmall", "NVals": "= {0, 160}",
              "ZetaVals": "= {0, 2}", "SecVals": "= {1, 3}", "HVals": "= {1, 2}", "ChordFlows": "<- ChordFlowsSmall",
-             "Kinds": "<- KindsAll", "MaxSteps": "= 2"}
-GEN_BIG = {"MaxNodes": "= 6", "MaxChords": "= 2", "Demands": "<- DemandsDef", "NVals": "= {0, 160, 320, 1600}",
+             "Kinds": "<- KindsAll", "MaxSteps": "= 2", "FdVals": "= {1}", "TeVals": "= {1}", "DtVals": "= {0}"}
+GEN_BIG = {"ThermalOn": "= FALSE", "MaxNodes": "= 6", "MaxChords": "= 2", "Demands": "<- DemandsDef", "NVals": "= {0, 160, 320, 1600}",
            "ZetaVals": "= {0, 1, 2}", "SecVals": "= {1, 2, 3}", "HVals": "= {1, 2, 3}", "ChordFlows": "<- ChordFlowsDef",
-           "Kinds": "<- KindsAll"}
+           "Kinds": "<- KindsAll", "FdVals": "= {1}", "TeVals": "= {1}", "DtVals": "= {0}"}
 
 
 def scenarios(tier, seed, rnd):
